@@ -60,7 +60,7 @@ def setup(ctx):
     st = {}
     st.update(ract.selftest())
     st.update(rconv.selftest())
-    _mon = monitors.ConvMonitor().install()
+    _mon = monitors.ConvMonitor(max_elems=400_000_000).install()
     return st
 
 
@@ -102,6 +102,9 @@ def run(case, ctx):
         if any(m % 2 == 0 for m in cfg["fsp"]) and (cfg["padding"] is None or isinstance(cfg["padding"], str) and cfg["padding"] != "VALID"):
             cfg["padding"] = [[1, 1]] * D
             cfg["pad_kind"] = "explicit"
+    if not basis and case["i"] % 20 == 19:
+        cfg["sp"] = [int(v) for v in (rng.integers(24, 41, size=2) if D == 2 else rng.integers(8, 12, size=3))]  # realistic sizes
+        cfg["Cin"], cfg["Cout"], cfg["k"], cfg["k2"] = int(rng.integers(4, 17)), int(rng.integers(4, 9)), int(rng.integers(0, 2)), int(rng.integers(0, 2))
     is_torus, stride, padding, lhs, rhs = gen.conv_args(cfg)
     sp, fsp, k, k2 = tuple(cfg["sp"]), tuple(cfg["fsp"]), cfg["k"], cfg["k2"]
     try:
